@@ -1,6 +1,1101 @@
-//! C28 — not built yet.
-use vcommon::Args;
+//! C28 — the Properties interface behaves as the property definitions say.
+//!
+//! A hand-generated bank of four interfaces covers property types {u, s, as, (us)} x access
+//! {read, readwrite, write} x EmitsChangedSignal {true, invalidates, const, false} (write-only
+//! properties cannot carry the attribute; the macro makes them `false`). Setter styles differ per
+//! interface (`&mut self`, `&self`, fallible, async). All four interfaces are registered at one
+//! path of a real p2p connection pair; every history of Get / GetAll / Set (valid, wrongly typed,
+//! unknown, read-only) over one interface, up to the depth bound, is issued over the wire through
+//! org.freedesktop.DBus.Properties, a PropertiesChanged collector on the client is drained after
+//! every step, and after the last step the whole property state is read back (GetAll, Get of every
+//! property, and the write-only field through `ObjectServer::interface`).
 
-pub fn main(_args: &Args) -> i32 {
-    vcommon::machinery_failure("C28: check not built yet")
+use std::collections::{BTreeMap, HashSet};
+use std::sync::atomic::{AtomicU64, Ordering::Relaxed};
+use std::sync::Mutex;
+
+use futures_lite::StreamExt;
+use serde_json::{json, Value as J};
+use vcommon::{enumerate, hash64, Args, Report, Violation};
+use zbus::{
+    zvariant::{Array, OwnedValue, StructureBuilder, Value},
+    Connection, MessageStream,
+};
+
+use crate::osrv::{call, short_err, Ran, Reply, Sys};
+
+const PATH: &str = "/o";
+const PROPS: &str = "org.freedesktop.DBus.Properties";
+
+#[derive(Clone, Copy, PartialEq, Eq, Debug, Hash, PartialOrd, Ord)]
+pub(crate) enum Ty {
+    U,
+    S,
+    AS,
+    US,
+}
+const TYPES: [Ty; 4] = [Ty::U, Ty::S, Ty::AS, Ty::US];
+
+impl Ty {
+    fn sig(self) -> &'static str {
+        match self {
+            Ty::U => "u",
+            Ty::S => "s",
+            Ty::AS => "as",
+            Ty::US => "(us)",
+        }
+    }
+}
+
+#[derive(Clone, PartialEq, Eq, Debug, Hash, PartialOrd, Ord)]
+pub(crate) enum PV {
+    U(u32),
+    S(String),
+    AS(Vec<String>),
+    US(u32, String),
+    Other(String),
+}
+
+pub(crate) trait Rusty: Sized {
+    fn from_pv(p: PV) -> Self;
+    fn to_pv(self) -> PV;
+}
+impl Rusty for u32 {
+    fn from_pv(p: PV) -> Self {
+        match p {
+            PV::U(v) => v,
+            _ => unreachable!(),
+        }
+    }
+    fn to_pv(self) -> PV {
+        PV::U(self)
+    }
+}
+impl Rusty for String {
+    fn from_pv(p: PV) -> Self {
+        match p {
+            PV::S(v) => v,
+            _ => unreachable!(),
+        }
+    }
+    fn to_pv(self) -> PV {
+        PV::S(self)
+    }
+}
+impl Rusty for Vec<String> {
+    fn from_pv(p: PV) -> Self {
+        match p {
+            PV::AS(v) => v,
+            _ => unreachable!(),
+        }
+    }
+    fn to_pv(self) -> PV {
+        PV::AS(self)
+    }
+}
+impl Rusty for (u32, String) {
+    fn from_pv(p: PV) -> Self {
+        match p {
+            PV::US(a, b) => (a, b),
+            _ => unreachable!(),
+        }
+    }
+    fn to_pv(self) -> PV {
+        PV::US(self.0, self.1)
+    }
+}
+
+impl PV {
+    fn into_rust<T: Rusty>(self) -> T {
+        T::from_pv(self)
+    }
+    fn from_rust<T: Rusty>(t: T) -> PV {
+        t.to_pv()
+    }
+    fn to_value(&self) -> Value<'static> {
+        match self {
+            PV::U(v) => Value::U32(*v),
+            PV::S(s) => Value::Str(s.clone().into()),
+            PV::AS(v) => Value::Array(Array::from(v.clone())),
+            PV::US(a, b) => Value::Structure(
+                StructureBuilder::new().add_field(*a).add_field(b.clone()).build().unwrap(),
+            ),
+            PV::Other(_) => Value::Bool(false),
+        }
+    }
+    fn from_value(v: &Value<'_>) -> PV {
+        match v {
+            Value::U32(u) => PV::U(*u),
+            Value::Str(s) => PV::S(s.to_string()),
+            Value::Array(a) if a.element_signature().to_string() == "s" => {
+                let mut out = vec![];
+                for e in a.iter() {
+                    match e {
+                        Value::Str(s) => out.push(s.to_string()),
+                        _ => return PV::Other(format!("{v:?}")),
+                    }
+                }
+                PV::AS(out)
+            }
+            Value::Structure(s) => match s.fields() {
+                [Value::U32(a), Value::Str(b)] => PV::US(*a, b.to_string()),
+                _ => PV::Other(format!("{v:?}")),
+            },
+            Value::Value(inner) => PV::Other(format!("nested variant {inner:?}")),
+            _ => PV::Other(format!("{v:?}")),
+        }
+    }
+    fn show(&self) -> String {
+        match self {
+            PV::U(v) => format!("{v}"),
+            PV::S(s) => format!("{s:?}"),
+            PV::AS(v) => format!("{v:?}"),
+            PV::US(a, b) => format!("({a}, {b:?})"),
+            PV::Other(s) => format!("?{s}"),
+        }
+    }
+}
+
+#[derive(Clone, Copy, PartialEq, Eq, Debug)]
+enum Access {
+    Ro,
+    Rw,
+    Wo,
+}
+
+/// The nine access / EmitsChangedSignal modes every bank interface has, in field order.
+const MODES: [(Access, &str, &str); 9] = [
+    (Access::Ro, "true", "RoTrue"),
+    (Access::Ro, "invalidates", "RoInval"),
+    (Access::Ro, "const", "RoConst"),
+    (Access::Ro, "false", "RoFalse"),
+    (Access::Rw, "true", "RwTrue"),
+    (Access::Rw, "invalidates", "RwInval"),
+    (Access::Rw, "const", "RwConst"),
+    (Access::Rw, "false", "RwFalse"),
+    (Access::Wo, "false", "Wo"),
+];
+const SETTER_STYLE: [&str; 4] = ["&mut self", "&self", "&mut self -> fdo::Result", "async &self"];
+
+fn ty_of(k: usize, j: usize) -> Ty {
+    TYPES[(j + k) % 4]
+}
+fn readable(j: usize) -> bool {
+    MODES[j].0 != Access::Wo
+}
+fn writable(j: usize) -> bool {
+    MODES[j].0 != Access::Ro
+}
+fn access_str(j: usize) -> &'static str {
+    match MODES[j].0 {
+        Access::Ro => "read",
+        Access::Rw => "readwrite",
+        Access::Wo => "write",
+    }
+}
+
+fn init(t: Ty, j: usize) -> PV {
+    match t {
+        Ty::U => PV::U(100 + j as u32),
+        Ty::S => PV::S(format!("s{j}")),
+        Ty::AS => PV::AS(vec![format!("i{j}")]),
+        Ty::US => PV::US(j as u32, format!("t{j}")),
+    }
+}
+
+/// Two values to Set, both different from every initial value.
+fn set_values(t: Ty) -> [PV; 2] {
+    match t {
+        Ty::U => [PV::U(11), PV::U(0)],
+        Ty::S => [PV::S("p".into()), PV::S(String::new())],
+        Ty::AS => [PV::AS(vec!["a".into(), "b".into()]), PV::AS(vec![])],
+        Ty::US => [PV::US(1, "x".into()), PV::US(0, String::new())],
+    }
+}
+
+/// Values whose D-Bus type is not the property's.
+fn wrong_kinds(t: Ty) -> &'static [&'static str] {
+    match t {
+        Ty::U => &["string", "int32"],
+        Ty::S => &["uint32", "object-path"],
+        Ty::AS => &["uint32", "array-of-uint32", "empty-array-of-uint32", "array-of-variants-holding-strings"],
+        Ty::US => &["string", "struct-fields-swapped", "struct-with-missing-field", "struct-with-extra-field"],
+    }
+}
+
+fn wrong_value(kind: &str) -> Value<'static> {
+    match kind {
+        "string" => Value::Str("x".into()),
+        "int32" => Value::I32(5),
+        "uint32" => Value::U32(7),
+        "object-path" => Value::ObjectPath("/x".try_into().unwrap()),
+        "array-of-uint32" => Value::Array(Array::from(vec![1u32])),
+        "empty-array-of-uint32" => Value::Array(Array::from(Vec::<u32>::new())),
+        "array-of-variants-holding-strings" => {
+            Value::Array(Array::from(vec![Value::Str("x".into())]))
+        }
+        "struct-fields-swapped" => Value::Structure(
+            StructureBuilder::new().add_field("x").add_field(1u32).build().unwrap(),
+        ),
+        "struct-with-missing-field" => {
+            Value::Structure(StructureBuilder::new().add_field(1u32).build().unwrap())
+        }
+        "struct-with-extra-field" => Value::Structure(
+            StructureBuilder::new().add_field(1u32).add_field("x").add_field(2u32).build().unwrap(),
+        ),
+        _ => unreachable!(),
+    }
+}
+
+pub(crate) trait Bank: zbus::object_server::Interface + Sized {
+    fn fresh() -> Self;
+    fn peek(&self, j: usize) -> PV;
+}
+
+// ---- generated by hand-run script (see DESIGN §6 C28): 4 interfaces x 9 access/emits modes, types rotated ----
+pub(crate) struct B0 {
+    ro_true: Mutex<u32>,
+    ro_inval: Mutex<String>,
+    ro_const: Mutex<Vec<String>>,
+    ro_false: Mutex<(u32, String)>,
+    rw_true: Mutex<u32>,
+    rw_inval: Mutex<String>,
+    rw_const: Mutex<Vec<String>>,
+    rw_false: Mutex<(u32, String)>,
+    wo: Mutex<u32>,
+}
+#[zbus::interface(name = "x.v.B0")]
+impl B0 {
+    #[zbus(property)]
+    fn ro_true(&self) -> u32 { self.ro_true.lock().unwrap().clone() }
+    #[zbus(property(emits_changed_signal = "invalidates"))]
+    fn ro_inval(&self) -> String { self.ro_inval.lock().unwrap().clone() }
+    #[zbus(property(emits_changed_signal = "const"))]
+    fn ro_const(&self) -> Vec<String> { self.ro_const.lock().unwrap().clone() }
+    #[zbus(property(emits_changed_signal = "false"))]
+    fn ro_false(&self) -> (u32, String) { self.ro_false.lock().unwrap().clone() }
+    #[zbus(property)]
+    fn rw_true(&self) -> u32 { self.rw_true.lock().unwrap().clone() }
+    #[zbus(property)]
+    fn set_rw_true(&mut self, v: u32) { *self.rw_true.get_mut().unwrap() = v; }
+    #[zbus(property(emits_changed_signal = "invalidates"))]
+    fn rw_inval(&self) -> String { self.rw_inval.lock().unwrap().clone() }
+    #[zbus(property)]
+    fn set_rw_inval(&mut self, v: String) { *self.rw_inval.get_mut().unwrap() = v; }
+    #[zbus(property(emits_changed_signal = "const"))]
+    fn rw_const(&self) -> Vec<String> { self.rw_const.lock().unwrap().clone() }
+    #[zbus(property)]
+    fn set_rw_const(&mut self, v: Vec<String>) { *self.rw_const.get_mut().unwrap() = v; }
+    #[zbus(property(emits_changed_signal = "false"))]
+    fn rw_false(&self) -> (u32, String) { self.rw_false.lock().unwrap().clone() }
+    #[zbus(property)]
+    fn set_rw_false(&mut self, v: (u32, String)) { *self.rw_false.get_mut().unwrap() = v; }
+    #[zbus(property)]
+    fn set_wo(&mut self, v: u32) { *self.wo.get_mut().unwrap() = v; }
+}
+impl Bank for B0 {
+    fn fresh() -> Self { B0 { ro_true: Mutex::new(init(Ty::U, 0).into_rust()), ro_inval: Mutex::new(init(Ty::S, 1).into_rust()), ro_const: Mutex::new(init(Ty::AS, 2).into_rust()), ro_false: Mutex::new(init(Ty::US, 3).into_rust()), rw_true: Mutex::new(init(Ty::U, 4).into_rust()), rw_inval: Mutex::new(init(Ty::S, 5).into_rust()), rw_const: Mutex::new(init(Ty::AS, 6).into_rust()), rw_false: Mutex::new(init(Ty::US, 7).into_rust()), wo: Mutex::new(init(Ty::U, 8).into_rust()) } }
+    fn peek(&self, j: usize) -> PV { match j { 0 => PV::from_rust(self.ro_true.lock().unwrap().clone()), 1 => PV::from_rust(self.ro_inval.lock().unwrap().clone()), 2 => PV::from_rust(self.ro_const.lock().unwrap().clone()), 3 => PV::from_rust(self.ro_false.lock().unwrap().clone()), 4 => PV::from_rust(self.rw_true.lock().unwrap().clone()), 5 => PV::from_rust(self.rw_inval.lock().unwrap().clone()), 6 => PV::from_rust(self.rw_const.lock().unwrap().clone()), 7 => PV::from_rust(self.rw_false.lock().unwrap().clone()), 8 => PV::from_rust(self.wo.lock().unwrap().clone()), _ => PV::Other(String::new()) } }
+}
+pub(crate) struct B1 {
+    ro_true: Mutex<String>,
+    ro_inval: Mutex<Vec<String>>,
+    ro_const: Mutex<(u32, String)>,
+    ro_false: Mutex<u32>,
+    rw_true: Mutex<String>,
+    rw_inval: Mutex<Vec<String>>,
+    rw_const: Mutex<(u32, String)>,
+    rw_false: Mutex<u32>,
+    wo: Mutex<String>,
+}
+#[zbus::interface(name = "x.v.B1")]
+impl B1 {
+    #[zbus(property)]
+    async fn ro_true(&self) -> String { self.ro_true.lock().unwrap().clone() }
+    #[zbus(property(emits_changed_signal = "invalidates"))]
+    async fn ro_inval(&self) -> Vec<String> { self.ro_inval.lock().unwrap().clone() }
+    #[zbus(property(emits_changed_signal = "const"))]
+    async fn ro_const(&self) -> (u32, String) { self.ro_const.lock().unwrap().clone() }
+    #[zbus(property(emits_changed_signal = "false"))]
+    async fn ro_false(&self) -> u32 { self.ro_false.lock().unwrap().clone() }
+    #[zbus(property)]
+    async fn rw_true(&self) -> String { self.rw_true.lock().unwrap().clone() }
+    #[zbus(property)]
+    fn set_rw_true(&self, v: String) { *self.rw_true.lock().unwrap() = v; }
+    #[zbus(property(emits_changed_signal = "invalidates"))]
+    async fn rw_inval(&self) -> Vec<String> { self.rw_inval.lock().unwrap().clone() }
+    #[zbus(property)]
+    fn set_rw_inval(&self, v: Vec<String>) { *self.rw_inval.lock().unwrap() = v; }
+    #[zbus(property(emits_changed_signal = "const"))]
+    async fn rw_const(&self) -> (u32, String) { self.rw_const.lock().unwrap().clone() }
+    #[zbus(property)]
+    fn set_rw_const(&self, v: (u32, String)) { *self.rw_const.lock().unwrap() = v; }
+    #[zbus(property(emits_changed_signal = "false"))]
+    async fn rw_false(&self) -> u32 { self.rw_false.lock().unwrap().clone() }
+    #[zbus(property)]
+    fn set_rw_false(&self, v: u32) { *self.rw_false.lock().unwrap() = v; }
+    #[zbus(property)]
+    fn set_wo(&self, v: String) { *self.wo.lock().unwrap() = v; }
+}
+impl Bank for B1 {
+    fn fresh() -> Self { B1 { ro_true: Mutex::new(init(Ty::S, 0).into_rust()), ro_inval: Mutex::new(init(Ty::AS, 1).into_rust()), ro_const: Mutex::new(init(Ty::US, 2).into_rust()), ro_false: Mutex::new(init(Ty::U, 3).into_rust()), rw_true: Mutex::new(init(Ty::S, 4).into_rust()), rw_inval: Mutex::new(init(Ty::AS, 5).into_rust()), rw_const: Mutex::new(init(Ty::US, 6).into_rust()), rw_false: Mutex::new(init(Ty::U, 7).into_rust()), wo: Mutex::new(init(Ty::S, 8).into_rust()) } }
+    fn peek(&self, j: usize) -> PV { match j { 0 => PV::from_rust(self.ro_true.lock().unwrap().clone()), 1 => PV::from_rust(self.ro_inval.lock().unwrap().clone()), 2 => PV::from_rust(self.ro_const.lock().unwrap().clone()), 3 => PV::from_rust(self.ro_false.lock().unwrap().clone()), 4 => PV::from_rust(self.rw_true.lock().unwrap().clone()), 5 => PV::from_rust(self.rw_inval.lock().unwrap().clone()), 6 => PV::from_rust(self.rw_const.lock().unwrap().clone()), 7 => PV::from_rust(self.rw_false.lock().unwrap().clone()), 8 => PV::from_rust(self.wo.lock().unwrap().clone()), _ => PV::Other(String::new()) } }
+}
+pub(crate) struct B2 {
+    ro_true: Mutex<Vec<String>>,
+    ro_inval: Mutex<(u32, String)>,
+    ro_const: Mutex<u32>,
+    ro_false: Mutex<String>,
+    rw_true: Mutex<Vec<String>>,
+    rw_inval: Mutex<(u32, String)>,
+    rw_const: Mutex<u32>,
+    rw_false: Mutex<String>,
+    wo: Mutex<Vec<String>>,
+}
+#[zbus::interface(name = "x.v.B2")]
+impl B2 {
+    #[zbus(property)]
+    fn ro_true(&self) -> Vec<String> { self.ro_true.lock().unwrap().clone() }
+    #[zbus(property(emits_changed_signal = "invalidates"))]
+    fn ro_inval(&self) -> (u32, String) { self.ro_inval.lock().unwrap().clone() }
+    #[zbus(property(emits_changed_signal = "const"))]
+    fn ro_const(&self) -> u32 { self.ro_const.lock().unwrap().clone() }
+    #[zbus(property(emits_changed_signal = "false"))]
+    fn ro_false(&self) -> String { self.ro_false.lock().unwrap().clone() }
+    #[zbus(property)]
+    fn rw_true(&self) -> Vec<String> { self.rw_true.lock().unwrap().clone() }
+    #[zbus(property)]
+    fn set_rw_true(&mut self, v: Vec<String>) -> zbus::fdo::Result<()> { *self.rw_true.get_mut().unwrap() = v; Ok(()) }
+    #[zbus(property(emits_changed_signal = "invalidates"))]
+    fn rw_inval(&self) -> (u32, String) { self.rw_inval.lock().unwrap().clone() }
+    #[zbus(property)]
+    fn set_rw_inval(&mut self, v: (u32, String)) -> zbus::fdo::Result<()> { *self.rw_inval.get_mut().unwrap() = v; Ok(()) }
+    #[zbus(property(emits_changed_signal = "const"))]
+    fn rw_const(&self) -> u32 { self.rw_const.lock().unwrap().clone() }
+    #[zbus(property)]
+    fn set_rw_const(&mut self, v: u32) -> zbus::fdo::Result<()> { *self.rw_const.get_mut().unwrap() = v; Ok(()) }
+    #[zbus(property(emits_changed_signal = "false"))]
+    fn rw_false(&self) -> String { self.rw_false.lock().unwrap().clone() }
+    #[zbus(property)]
+    fn set_rw_false(&mut self, v: String) -> zbus::fdo::Result<()> { *self.rw_false.get_mut().unwrap() = v; Ok(()) }
+    #[zbus(property)]
+    fn set_wo(&mut self, v: Vec<String>) -> zbus::fdo::Result<()> { *self.wo.get_mut().unwrap() = v; Ok(()) }
+}
+impl Bank for B2 {
+    fn fresh() -> Self { B2 { ro_true: Mutex::new(init(Ty::AS, 0).into_rust()), ro_inval: Mutex::new(init(Ty::US, 1).into_rust()), ro_const: Mutex::new(init(Ty::U, 2).into_rust()), ro_false: Mutex::new(init(Ty::S, 3).into_rust()), rw_true: Mutex::new(init(Ty::AS, 4).into_rust()), rw_inval: Mutex::new(init(Ty::US, 5).into_rust()), rw_const: Mutex::new(init(Ty::U, 6).into_rust()), rw_false: Mutex::new(init(Ty::S, 7).into_rust()), wo: Mutex::new(init(Ty::AS, 8).into_rust()) } }
+    fn peek(&self, j: usize) -> PV { match j { 0 => PV::from_rust(self.ro_true.lock().unwrap().clone()), 1 => PV::from_rust(self.ro_inval.lock().unwrap().clone()), 2 => PV::from_rust(self.ro_const.lock().unwrap().clone()), 3 => PV::from_rust(self.ro_false.lock().unwrap().clone()), 4 => PV::from_rust(self.rw_true.lock().unwrap().clone()), 5 => PV::from_rust(self.rw_inval.lock().unwrap().clone()), 6 => PV::from_rust(self.rw_const.lock().unwrap().clone()), 7 => PV::from_rust(self.rw_false.lock().unwrap().clone()), 8 => PV::from_rust(self.wo.lock().unwrap().clone()), _ => PV::Other(String::new()) } }
+}
+pub(crate) struct B3 {
+    ro_true: Mutex<(u32, String)>,
+    ro_inval: Mutex<u32>,
+    ro_const: Mutex<String>,
+    ro_false: Mutex<Vec<String>>,
+    rw_true: Mutex<(u32, String)>,
+    rw_inval: Mutex<u32>,
+    rw_const: Mutex<String>,
+    rw_false: Mutex<Vec<String>>,
+    wo: Mutex<(u32, String)>,
+}
+#[zbus::interface(name = "x.v.B3")]
+impl B3 {
+    #[zbus(property)]
+    async fn ro_true(&self) -> (u32, String) { self.ro_true.lock().unwrap().clone() }
+    #[zbus(property(emits_changed_signal = "invalidates"))]
+    async fn ro_inval(&self) -> u32 { self.ro_inval.lock().unwrap().clone() }
+    #[zbus(property(emits_changed_signal = "const"))]
+    async fn ro_const(&self) -> String { self.ro_const.lock().unwrap().clone() }
+    #[zbus(property(emits_changed_signal = "false"))]
+    async fn ro_false(&self) -> Vec<String> { self.ro_false.lock().unwrap().clone() }
+    #[zbus(property)]
+    async fn rw_true(&self) -> (u32, String) { self.rw_true.lock().unwrap().clone() }
+    #[zbus(property)]
+    async fn set_rw_true(&self, v: (u32, String)) { *self.rw_true.lock().unwrap() = v; }
+    #[zbus(property(emits_changed_signal = "invalidates"))]
+    async fn rw_inval(&self) -> u32 { self.rw_inval.lock().unwrap().clone() }
+    #[zbus(property)]
+    async fn set_rw_inval(&self, v: u32) { *self.rw_inval.lock().unwrap() = v; }
+    #[zbus(property(emits_changed_signal = "const"))]
+    async fn rw_const(&self) -> String { self.rw_const.lock().unwrap().clone() }
+    #[zbus(property)]
+    async fn set_rw_const(&self, v: String) { *self.rw_const.lock().unwrap() = v; }
+    #[zbus(property(emits_changed_signal = "false"))]
+    async fn rw_false(&self) -> Vec<String> { self.rw_false.lock().unwrap().clone() }
+    #[zbus(property)]
+    async fn set_rw_false(&self, v: Vec<String>) { *self.rw_false.lock().unwrap() = v; }
+    #[zbus(property)]
+    async fn set_wo(&self, v: (u32, String)) { *self.wo.lock().unwrap() = v; }
+}
+impl Bank for B3 {
+    fn fresh() -> Self { B3 { ro_true: Mutex::new(init(Ty::US, 0).into_rust()), ro_inval: Mutex::new(init(Ty::U, 1).into_rust()), ro_const: Mutex::new(init(Ty::S, 2).into_rust()), ro_false: Mutex::new(init(Ty::AS, 3).into_rust()), rw_true: Mutex::new(init(Ty::US, 4).into_rust()), rw_inval: Mutex::new(init(Ty::U, 5).into_rust()), rw_const: Mutex::new(init(Ty::S, 6).into_rust()), rw_false: Mutex::new(init(Ty::AS, 7).into_rust()), wo: Mutex::new(init(Ty::US, 8).into_rust()) } }
+    fn peek(&self, j: usize) -> PV { match j { 0 => PV::from_rust(self.ro_true.lock().unwrap().clone()), 1 => PV::from_rust(self.ro_inval.lock().unwrap().clone()), 2 => PV::from_rust(self.ro_const.lock().unwrap().clone()), 3 => PV::from_rust(self.ro_false.lock().unwrap().clone()), 4 => PV::from_rust(self.rw_true.lock().unwrap().clone()), 5 => PV::from_rust(self.rw_inval.lock().unwrap().clone()), 6 => PV::from_rust(self.rw_const.lock().unwrap().clone()), 7 => PV::from_rust(self.rw_false.lock().unwrap().clone()), 8 => PV::from_rust(self.wo.lock().unwrap().clone()), _ => PV::Other(String::new()) } }
+}
+
+// ---------------------------------------------------------------------------------------------
+// Operations
+// ---------------------------------------------------------------------------------------------
+
+#[derive(Clone, Debug, PartialEq, Eq, Hash)]
+enum POp {
+    Get(usize),
+    GetAll,
+    Set(usize, PV),
+    SetWrong(usize, &'static str),
+    SetUnknown,
+    SetRo(usize),
+}
+
+impl POp {
+    fn kind(&self) -> &'static str {
+        match self {
+            POp::Get(_) => "get",
+            POp::GetAll => "getall",
+            POp::Set(..) => "set",
+            POp::SetWrong(..) => "set-wrong-type",
+            POp::SetUnknown => "set-unknown",
+            POp::SetRo(_) => "set-read-only",
+        }
+    }
+    fn prop(&self) -> Option<usize> {
+        match self {
+            POp::Get(j) | POp::Set(j, _) | POp::SetWrong(j, _) | POp::SetRo(j) => Some(*j),
+            _ => None,
+        }
+    }
+    fn show(&self) -> String {
+        match self {
+            POp::Get(j) => format!("Get {}", MODES[*j].2),
+            POp::GetAll => "GetAll".into(),
+            POp::Set(j, v) => format!("Set {} {}", MODES[*j].2, v.show()),
+            POp::SetWrong(j, k) => format!("Set {} <{k}>", MODES[*j].2),
+            POp::SetUnknown => "Set Nope 1".into(),
+            POp::SetRo(j) => format!("Set {} (read-only)", MODES[*j].2),
+        }
+    }
+    fn to_json(&self) -> J {
+        match self {
+            POp::Get(j) => json!({"op":"get","prop":MODES[*j].2}),
+            POp::GetAll => json!({"op":"getall"}),
+            POp::Set(j, v) => json!({"op":"set","prop":MODES[*j].2,"value":pv_json(v)}),
+            POp::SetWrong(j, k) => json!({"op":"set-wrong-type","prop":MODES[*j].2,"wrong":k}),
+            POp::SetUnknown => json!({"op":"set-unknown"}),
+            POp::SetRo(j) => json!({"op":"set-read-only","prop":MODES[*j].2}),
+        }
+    }
+    fn from_json(v: &J, k: usize) -> Option<POp> {
+        let j = || MODES.iter().position(|m| Some(m.2) == v["prop"].as_str());
+        match v["op"].as_str()? {
+            "get" => Some(POp::Get(j()?)),
+            "getall" => Some(POp::GetAll),
+            "set" => Some(POp::Set(j()?, pv_from_json(&v["value"])?)),
+            "set-wrong-type" => {
+                let j = j()?;
+                let kind = wrong_kinds(ty_of(k, j)).iter().find(|w| Some(**w) == v["wrong"].as_str())?;
+                Some(POp::SetWrong(j, *kind))
+            }
+            "set-unknown" => Some(POp::SetUnknown),
+            "set-read-only" => Some(POp::SetRo(j()?)),
+            _ => None,
+        }
+    }
+}
+
+fn pv_json(v: &PV) -> J {
+    match v {
+        PV::U(u) => json!({"u": u}),
+        PV::S(s) => json!({"s": s}),
+        PV::AS(a) => json!({"as": a}),
+        PV::US(a, b) => json!({"us": [a, b]}),
+        PV::Other(s) => json!({"other": s}),
+    }
+}
+fn pv_from_json(v: &J) -> Option<PV> {
+    if let Some(u) = v.get("u") {
+        return Some(PV::U(u.as_u64()? as u32));
+    }
+    if let Some(s) = v.get("s") {
+        return Some(PV::S(s.as_str()?.to_string()));
+    }
+    if let Some(a) = v.get("as") {
+        return Some(PV::AS(a.as_array()?.iter().filter_map(|x| x.as_str().map(|s| s.to_string())).collect()));
+    }
+    if let Some(a) = v.get("us") {
+        return Some(PV::US(a[0].as_u64()? as u32, a[1].as_str()?.to_string()));
+    }
+    None
+}
+
+fn show_history(k: usize, h: &[POp]) -> String {
+    format!("x.v.B{k}: {}", h.iter().map(|o| o.show()).collect::<Vec<_>>().join("; "))
+}
+
+fn alphabet(k: usize) -> Vec<POp> {
+    let mut v = vec![];
+    for j in 0..MODES.len() {
+        v.push(POp::Get(j));
+    }
+    v.push(POp::GetAll);
+    for j in (0..MODES.len()).filter(|j| writable(*j)) {
+        for val in set_values(ty_of(k, j)) {
+            v.push(POp::Set(j, val));
+        }
+    }
+    for j in (0..MODES.len()).filter(|j| writable(*j)) {
+        for w in wrong_kinds(ty_of(k, j)) {
+            v.push(POp::SetWrong(j, w));
+        }
+    }
+    v.push(POp::SetUnknown);
+    for j in (0..MODES.len()).filter(|j| !writable(*j)) {
+        v.push(POp::SetRo(j));
+    }
+    v
+}
+
+#[derive(Clone, Debug, PartialEq, Eq, Hash)]
+enum PRes {
+    Value(PV),
+    All(BTreeMap<String, PV>),
+    SetOk,
+    /// D-Bus error reply (short name)
+    Err(String),
+    Odd(String),
+}
+
+impl PRes {
+    fn class(&self) -> String {
+        match self {
+            PRes::Value(_) => "value".into(),
+            PRes::All(m) => format!("dict[{}]", m.len()),
+            PRes::SetOk => "ok".into(),
+            PRes::Err(n) => format!("error {n}"),
+            PRes::Odd(_) => "odd".into(),
+        }
+    }
+    fn show(&self) -> String {
+        match self {
+            PRes::Value(v) => v.show(),
+            PRes::All(m) => format!("{{{}}}", m.iter().map(|(k, v)| format!("{k}: {}", v.show())).collect::<Vec<_>>().join(", ")),
+            PRes::SetOk => "ok".into(),
+            PRes::Err(n) => format!("error {n}"),
+            PRes::Odd(e) => format!("ODD {e}"),
+        }
+    }
+}
+
+fn iface(k: usize) -> String {
+    format!("x.v.B{k}")
+}
+
+async fn get(c: &Connection, k: usize, name: &str) -> PRes {
+    match call(c, PATH, PROPS, "Get", &(iface(k), name)).await {
+        Reply::Ok(m) => match m.body().deserialize::<OwnedValue>() {
+            Ok(v) => PRes::Value(PV::from_value(&v)),
+            Err(e) => PRes::Odd(format!("bad Get reply: {e}")),
+        },
+        Reply::Err(n, _) => PRes::Err(short_err(&n).to_string()),
+        Reply::Other(e) => PRes::Odd(e),
+    }
+}
+
+async fn get_all(c: &Connection, k: usize) -> PRes {
+    match call(c, PATH, PROPS, "GetAll", &(iface(k),)).await {
+        Reply::Ok(m) => match m.body().deserialize::<std::collections::HashMap<String, OwnedValue>>() {
+            Ok(v) => PRes::All(v.iter().map(|(a, b)| (a.clone(), PV::from_value(b))).collect()),
+            Err(e) => PRes::Odd(format!("bad GetAll reply: {e}")),
+        },
+        Reply::Err(n, _) => PRes::Err(short_err(&n).to_string()),
+        Reply::Other(e) => PRes::Odd(e),
+    }
+}
+
+async fn set(c: &Connection, k: usize, name: &str, v: Value<'static>) -> PRes {
+    match call(c, PATH, PROPS, "Set", &(iface(k), name, v)).await {
+        Reply::Ok(_) => PRes::SetOk,
+        Reply::Err(n, _) => PRes::Err(short_err(&n).to_string()),
+        Reply::Other(e) => PRes::Odd(e),
+    }
+}
+
+async fn do_op(c: Connection, k: usize, op: POp) -> PRes {
+    match op {
+        POp::Get(j) => get(&c, k, MODES[j].2).await,
+        POp::GetAll => get_all(&c, k).await,
+        POp::Set(j, v) => set(&c, k, MODES[j].2, v.to_value()).await,
+        POp::SetWrong(j, w) => set(&c, k, MODES[j].2, wrong_value(w)).await,
+        POp::SetUnknown => set(&c, k, "Nope", Value::U32(1)).await,
+        POp::SetRo(j) => set(&c, k, MODES[j].2, set_values(ty_of(k, j))[0].to_value()).await,
+    }
+}
+
+#[derive(Clone, Debug, PartialEq, Eq, Hash)]
+enum PSig {
+    Changed { path: String, iface: String, changed: BTreeMap<String, PV>, invalidated: Vec<String> },
+    Odd(String),
+}
+
+impl PSig {
+    fn show(&self) -> String {
+        match self {
+            PSig::Changed { path, iface, changed, invalidated } => format!(
+                "PropertiesChanged({path} {iface} changed={{{}}} invalidated={invalidated:?})",
+                changed.iter().map(|(k, v)| format!("{k}: {}", v.show())).collect::<Vec<_>>().join(", ")
+            ),
+            PSig::Odd(e) => format!("ODD {e}"),
+        }
+    }
+}
+
+async fn drain(mut stream: MessageStream) -> (MessageStream, Vec<PSig>) {
+    let mut out = vec![];
+    loop {
+        match futures_lite::future::poll_once(stream.next()).await {
+            Some(Some(Ok(m))) => {
+                let h = m.header();
+                let path = h.path().map(|p| p.to_string()).unwrap_or_default();
+                if h.member().map(|m| m.as_str() == "PropertiesChanged") != Some(true) {
+                    out.push(PSig::Odd(format!("unexpected signal {:?}", h.member())));
+                    continue;
+                }
+                match m.body().deserialize::<(String, std::collections::HashMap<String, OwnedValue>, Vec<String>)>() {
+                    Ok((iface, ch, inv)) => out.push(PSig::Changed {
+                        path,
+                        iface,
+                        changed: ch.iter().map(|(a, b)| (a.clone(), PV::from_value(b))).collect(),
+                        invalidated: inv,
+                    }),
+                    Err(e) => out.push(PSig::Odd(format!("bad PropertiesChanged body: {e}"))),
+                }
+            }
+            Some(Some(Err(e))) => out.push(PSig::Odd(format!("stream error {e:?}"))),
+            Some(None) => {
+                out.push(PSig::Odd("stream ended".into()));
+                break;
+            }
+            None => break,
+        }
+    }
+    (stream, out)
+}
+
+/// The whole property state: `GetAll` over the wire and the instance's fields read on the server
+/// through `ObjectServer::interface` (the only way to see a write-only property). `Get` of every
+/// single property after a history `h` is the verdict of the enumerated histories `h; Get p`.
+#[derive(Clone, Debug, PartialEq, Eq, Hash)]
+struct Snapshot {
+    all: PRes,
+    fields: Vec<PV>,
+}
+
+async fn peek<B: Bank>(s: Connection) -> Vec<PV> {
+    let mut fields = vec![];
+    match s.object_server().interface::<_, B>(PATH).await {
+        Ok(r) => {
+            let g = r.get().await;
+            for j in 0..MODES.len() {
+                fields.push(g.peek(j));
+            }
+        }
+        Err(e) => fields.push(PV::Other(format!("{e:?}"))),
+    }
+    fields
+}
+
+async fn snapshot<B: Bank>(c: Connection, s: Connection, k: usize) -> Snapshot {
+    let all = get_all(&c, k).await;
+    let fields = peek::<B>(s).await;
+    Snapshot { all, fields }
+}
+
+enum Exec {
+    DeadPrefix(usize, String),
+    Last {
+        /// the property values observed (fields) right before the last operation
+        model: Vec<PV>,
+        /// `Err((kind, text))` = the call panicked the server / never returned
+        res: Result<PRes, (String, String)>,
+        sigs: Vec<PSig>,
+        snap: Option<Snapshot>,
+    },
+}
+
+fn failed<T>(r: &Ran<T>) -> Option<(String, String)> {
+    match r {
+        Ran::Done(_) => None,
+        Ran::Hung => Some(("hang".into(), "nothing is enabled and the call has not returned".into())),
+        Ran::Panic { msg, loc } => Some(("panic".into(), format!("{msg} at {loc}"))),
+    }
+}
+
+fn model_apply(model: &mut [PV], op: &POp) {
+    if let POp::Set(j, v) = op {
+        model[*j] = v.clone();
+    }
+}
+
+fn initial(k: usize) -> Vec<PV> {
+    (0..MODES.len()).map(|j| init(ty_of(k, j), j)).collect()
+}
+
+fn run_history<B: Bank>(k: usize, h: &[POp], trace: bool) -> Exec {
+    let mut sys = match Sys::new() {
+        Ok(s) => s,
+        Err(e) => vcommon::machinery_failure(&format!("cannot build the p2p pair: {e}")),
+    };
+    let (c, s) = (sys.client.clone(), sys.server.clone());
+    let stream = match sys.run("setup", async move {
+        let os = s.object_server();
+        let ok = os.at(PATH, B0::fresh()).await? & os.at(PATH, B1::fresh()).await? & os.at(PATH, B2::fresh()).await? & os.at(PATH, B3::fresh()).await?;
+        if !ok {
+            return Err(zbus::Error::Failure("bank registration refused".into()));
+        }
+        let rule = zbus::MatchRule::builder()
+            .msg_type(zbus::message::Type::Signal)
+            .interface(PROPS)
+            .unwrap()
+            .build();
+        MessageStream::for_match_rule(rule, &c, Some(256)).await
+    }) {
+        Ran::Done(Ok(s)) => s,
+        Ran::Done(Err(e)) => vcommon::machinery_failure(&format!("cannot set up the bank: {e:?}")),
+        r => vcommon::machinery_failure(&format!("cannot set up the bank: {:?}", failed(&r))),
+    };
+    let mut stream = Some(stream);
+    let n = h.len();
+    if n == 0 {
+        let (c, s) = (sys.client.clone(), sys.server.clone());
+        let snap = match sys.run("snapshot", snapshot::<B>(c, s, k)) {
+            Ran::Done(x) => Some(x),
+            _ => None,
+        };
+        let _ = vcommon::catch(move || drop((stream, sys)));
+        return Exec::Last { model: initial(k), res: Ok(PRes::SetOk), sigs: vec![], snap };
+    }
+    let mut model = vec![];
+    for (step, op) in h.iter().enumerate() {
+        let last = step + 1 == n;
+        if last {
+            let s = sys.server.clone();
+            model = match sys.run("peek", peek::<B>(s)) {
+                Ran::Done(m) => m,
+                r => {
+                    let _ = vcommon::catch(move || drop((stream, sys)));
+                    return Exec::DeadPrefix(step, format!("{:?}", failed(&r)));
+                }
+            };
+        }
+        let c = sys.client.clone();
+        let r = sys.run("op", do_op(c, k, op.clone()));
+        let res = match r {
+            Ran::Done(v) => Ok(v),
+            r => Err(failed(&r).unwrap()),
+        };
+        if res.is_err() {
+            let out = if last {
+                Exec::Last { model, res, sigs: vec![], snap: None }
+            } else {
+                Exec::DeadPrefix(step, format!("{:?}", res.err().unwrap()))
+            };
+            let _ = vcommon::catch(move || drop((stream, sys)));
+            return out;
+        }
+        let st = stream.take().unwrap();
+        let sigs = match sys.run("drain", drain(st)) {
+            Ran::Done((s2, sigs)) => {
+                stream = Some(s2);
+                sigs
+            }
+            _ => vcommon::machinery_failure("the signal collector failed"),
+        };
+        if trace {
+            println!("step {}: {} -> {}", step + 1, op.show(), res.as_ref().map(|r| r.show()).unwrap_or_default());
+            for s in &sigs {
+                println!("    signal: {}", s.show());
+            }
+        }
+        if last {
+            let (c, s) = (sys.client.clone(), sys.server.clone());
+            let snap = match sys.run("snapshot", snapshot::<B>(c, s, k)) {
+                Ran::Done(x) => Some(x),
+                _ => None,
+            };
+            let _ = vcommon::catch(move || drop((stream, sys)));
+            return Exec::Last { model, res, sigs, snap };
+        }
+    }
+    unreachable!()
+}
+
+fn run_history_k(k: usize, h: &[POp], trace: bool) -> Exec {
+    match k {
+        0 => run_history::<B0>(k, h, trace),
+        1 => run_history::<B1>(k, h, trace),
+        2 => run_history::<B2>(k, h, trace),
+        _ => run_history::<B3>(k, h, trace),
+    }
+}
+
+// ---------------------------------------------------------------------------------------------
+// Oracle
+// ---------------------------------------------------------------------------------------------
+
+fn readable_map(model: &[PV]) -> BTreeMap<String, PV> {
+    (0..MODES.len().min(model.len())).filter(|j| readable(*j)).map(|j| (MODES[j].2.to_string(), model[j].clone())).collect()
+}
+
+/// Verdict on the last call of a history: its answer against the values observed right before it,
+/// the signals that followed, and the values observed right after it.
+fn check(k: usize, h: &[POp], model: &[PV], res: &Result<PRes, (String, String)>, sigs: &[PSig], snap: Option<&Snapshot>) -> (Vec<Violation>, String) {
+    let mut out = vec![];
+    let replay = json!({"interface": k, "history": h.iter().map(|o| o.to_json()).collect::<Vec<_>>()});
+    let hs = show_history(k, h);
+    let op = h.last();
+    let kind = op.map(|o| o.kind()).unwrap_or("init");
+    let j = op.and_then(|o| o.prop());
+    let base = |v: Violation| {
+        let v = v.feat("op", kind).feat("setter_style", SETTER_STYLE[k]);
+        match j {
+            Some(j) => v.feat("type", ty_of(k, j).sig()).feat("access", access_str(j)).feat("emits", MODES[j].1),
+            None => v,
+        }
+    };
+    let clause_of_op = match op {
+        Some(POp::Get(_)) | None => "get-returns-current",
+        Some(POp::GetAll) => "getall-exactly-readable",
+        Some(POp::Set(..)) => "set-updates-writable",
+        Some(_) => "set-rejects-invalid",
+    };
+    let invalid = match op {
+        Some(POp::SetWrong(_, w)) => *w,
+        Some(POp::SetUnknown) => "unknown-property",
+        Some(POp::SetRo(_)) => "read-only-property",
+        _ => "",
+    };
+    let must_reject = !invalid.is_empty();
+    if model.len() != MODES.len() {
+        out.push(base(Violation::new("get-returns-current", format!("[{hs}] the interface instance cannot be read on the server: {model:?}"), replay.clone())).feat("effect", "instance-missing"));
+        return (out, format!("{kind} -> no instance"));
+    }
+    let res = match res {
+        Err((what, text)) => {
+            out.push(
+                base(Violation::new(clause_of_op, format!("[{hs}] the last call ended in a {what} on the server side instead of a reply: {text}"), replay.clone()))
+                    .feat("effect", what)
+                    .feat("invalid", invalid),
+            );
+            return (out, format!("{kind} -> {what}"));
+        }
+        Ok(r) => r,
+    };
+    let mut class = format!("{kind} -> {}", res.class());
+    if let PRes::Odd(e) = res {
+        out.push(base(Violation::new(clause_of_op, format!("[{hs}] the last call failed locally: {e}"), replay.clone())).feat("effect", "odd"));
+    }
+    // expected values after the call
+    let mut post = model.to_vec();
+    let mut valid_set_ok = false;
+    let mut accepted_invalid = false;
+    match op {
+        Some(POp::Get(j)) if readable(*j) => {
+            if *res != PRes::Value(model[*j].clone()) {
+                out.push(base(Violation::new("get-returns-current", format!("[{hs}] Get returned {} but the current value is {}", res.show(), model[*j].show()), replay.clone())).feat("effect", "wrong-answer"));
+            }
+        }
+        Some(POp::Get(_)) => class = format!("get write-only -> {}", res.class()),
+        Some(POp::GetAll) => {
+            let want = readable_map(model);
+            if *res != PRes::All(want.clone()) {
+                out.push(base(Violation::new("getall-exactly-readable", format!("[{hs}] GetAll returned {} but the readable properties are {}", res.show(), PRes::All(want).show()), replay.clone())).feat("effect", "wrong-answer"));
+            }
+        }
+        Some(o @ POp::Set(..)) => {
+            model_apply(&mut post, o);
+            if *res == PRes::SetOk {
+                valid_set_ok = true;
+            } else {
+                out.push(base(Violation::new("set-updates-writable", format!("[{hs}] a well-typed Set of a writable property was answered with {}", res.show()), replay.clone())).feat("effect", "rejected"));
+            }
+        }
+        Some(POp::SetWrong(..)) | Some(POp::SetUnknown) | Some(POp::SetRo(_)) => {
+            accepted_invalid = !matches!(res, PRes::Err(_));
+        }
+        None => {}
+    }
+
+    // the values right after the call
+    let after = snap.map(|s| &s.fields).filter(|f| f.len() == MODES.len());
+    let changed: Vec<String> = match after {
+        Some(f) => (0..MODES.len()).filter(|jj| f[*jj] != post[*jj]).map(|jj| format!("{} is {} (expected {})", MODES[jj].2, f[jj].show(), post[jj].show())).collect(),
+        None => vec!["the instance could not be read back".into()],
+    };
+    if accepted_invalid {
+        out.push(
+            base(Violation::new(
+                "set-rejects-invalid",
+                format!(
+                    "[{hs}] a Set that must be rejected ({invalid}) was answered with {}{}",
+                    res.show(),
+                    if changed.is_empty() { String::new() } else { format!(" and changed the state: {}", changed.join("; ")) }
+                ),
+                replay.clone(),
+            ))
+            .feat("effect", "accepted")
+            .feat("invalid", invalid)
+            .feat("state_changed", !changed.is_empty()),
+        );
+    } else if !changed.is_empty() {
+        let (clause, effect) = match op {
+            Some(POp::Set(..)) => ("set-updates-writable", "state-differs-after-set"),
+            _ if must_reject => ("set-rejects-invalid", "rejected-but-state-changed"),
+            _ => ("get-returns-current", "read-changed-state"),
+        };
+        out.push(base(Violation::new(clause, format!("[{hs}] after the last call: {}", changed.join("; ")), replay.clone())).feat("effect", effect).feat("invalid", invalid));
+    }
+    if let (Some(snap), Some(f)) = (snap, after) {
+        let want = readable_map(f);
+        if snap.all != PRes::All(want.clone()) {
+            out.push(base(Violation::new("getall-exactly-readable", format!("[{hs}] after the last call GetAll returns {} but the readable properties now are {}", snap.all.show(), PRes::All(want).show()), replay.clone())).feat("effect", "readback-differs"));
+        }
+    }
+
+    // signals of the last step
+    if valid_set_ok {
+        let j = j.unwrap();
+        let name = MODES[j].2.to_string();
+        let want: Vec<PSig> = match (MODES[j].0, MODES[j].1) {
+            (Access::Rw, "true") => vec![PSig::Changed { path: PATH.into(), iface: iface(k), changed: [(name, post[j].clone())].into(), invalidated: vec![] }],
+            (Access::Rw, "invalidates") => vec![PSig::Changed { path: PATH.into(), iface: iface(k), changed: BTreeMap::new(), invalidated: vec![name] }],
+            _ => vec![],
+        };
+        if sigs != want.as_slice() {
+            let effect = if sigs.is_empty() {
+                "no-signal"
+            } else if want.is_empty() {
+                "unexpected-signal"
+            } else if sigs.len() > 1 && sigs.iter().all(|s| *s == want[0]) {
+                "duplicate-signal"
+            } else {
+                "wrong-signal"
+            };
+            out.push(
+                base(Violation::new(
+                    "signal-as-annotated",
+                    format!("[{hs}] after the successful Set the client received {:?}, the annotation calls for {:?}", sigs.iter().map(|s| s.show()).collect::<Vec<_>>(), want.iter().map(|s| s.show()).collect::<Vec<_>>()),
+                    replay.clone(),
+                ))
+                .feat("effect", effect),
+            );
+        }
+        class += &format!(" signals={}", sigs.len());
+    } else if !sigs.is_empty() {
+        // The statement only speaks about successful Sets.
+        class += &format!(" (signals without a successful well-typed Set: {})", sigs.len());
+    }
+    (out, class)
+}
+
+// ---------------------------------------------------------------------------------------------
+// Driver
+// ---------------------------------------------------------------------------------------------
+
+pub fn main(args: &Args) -> i32 {
+    if let Some(p) = &args.replay {
+        return replay(p);
+    }
+    let report = Report::new("C28", args.tier, args.seed, "model_checking");
+    let depth = args.tier.pick(3usize, 4usize);
+    let states: Mutex<HashSet<u64>> = Mutex::new(HashSet::new());
+    let (transitions, histories, dead) = (AtomicU64::new(0), AtomicU64::new(0), AtomicU64::new(0));
+    let mut bank = vec![];
+    for k in 0..4 {
+        let alpha = alphabet(k);
+        let total = enumerate::count_strings(alpha.len(), depth);
+        vcommon::par_for(total, 64, |n| {
+            let mut idx = vec![];
+            enumerate::nth_string(alpha.len(), n, &mut idx);
+            let h: Vec<POp> = idx.iter().map(|a| alpha[*a].clone()).collect();
+            match run_history_k(k, &h, false) {
+                Exec::DeadPrefix(_, _) => {
+                    dead.fetch_add(1, Relaxed);
+                    report.outcome("extends a history whose last call already panicked the server (pruned)");
+                }
+                Exec::Last { model, res, sigs, snap } => {
+                    report.eval(1);
+                    histories.fetch_add(1, Relaxed);
+                    transitions.fetch_add(h.len() as u64, Relaxed);
+                    let (vs, class) = check(k, &h, &model, &res, &sigs, snap.as_ref());
+                    report.outcome(&class);
+                    if let Some(s) = &snap {
+                        states.lock().unwrap().insert(hash64(&(k, s)));
+                    }
+                    report.nontrivial(hash64(&(k, &model, h.last(), res.as_ref().ok(), &sigs)));
+                    if hash64(&(k, n)) % (total as u64 / 3).max(1) == 0 {
+                        report.sample(json!({
+                            "history": show_history(k, &h),
+                            "last_answer": res.as_ref().map(|r| r.show()).unwrap_or_else(|e| format!("{}: {}", e.0, e.1)),
+                            "signals_of_last_step": sigs.iter().map(|s| s.show()).collect::<Vec<_>>(),
+                            "violations": vs.len(),
+                        }));
+                    }
+                    for v in vs {
+                        report.violation(v);
+                    }
+                }
+            }
+        });
+        bank.push(json!({
+            "interface": iface(k),
+            "setter_style": SETTER_STYLE[k],
+            "alphabet_size": alpha.len(),
+            "properties": (0..MODES.len()).map(|j| json!({"name": MODES[j].2, "type": ty_of(k, j).sig(), "access": access_str(j), "emits_changed_signal": MODES[j].1})).collect::<Vec<_>>(),
+        }));
+    }
+    report.set("bank", json!(bank));
+    report.set("history_depth", json!(depth));
+    report.set("states", json!(states.lock().unwrap().len()));
+    report.set("states_meaning", json!("distinct (interface, GetAll answer, field values) read-backs"));
+    report.set("transitions", json!(transitions.load(Relaxed)));
+    report.set("traces_validated_against_impl", json!(histories.load(Relaxed)));
+    report.set("histories_pruned_after_panic", json!(dead.load(Relaxed)));
+    report.assume("each transition is one Properties call from the client followed by running every task of both connections until nothing is enabled (default schedule)");
+    report.assume("the reference model is a map property -> value; it is applied to the values observed (instance fields read on the server) right before the last call of each history; every prefix is itself an enumerated history, so by induction this is the history-implied value, and one defective transition does not cascade");
+    report.assume("signals that follow anything other than a successful Set are counted as an outcome class, not judged (the statement is silent)");
+    report.finish(
+        "for each bank interface every history over its alphabet up to the depth bound is executed on a fresh real connection pair; verdict on the last call, its signals and a full read-back; non-trivial = distinct (interface, model state, operation, answer, signals) tuples",
+        true,
+    )
+}
+
+fn replay(path: &str) -> i32 {
+    let v = vcommon::load_replay(path);
+    let r = if v["replay"].is_object() { &v["replay"] } else { &v };
+    let k = r["interface"].as_u64().unwrap_or(0) as usize;
+    let h: Vec<POp> = r["history"]
+        .as_array()
+        .unwrap_or_else(|| vcommon::machinery_failure("replay file has no history"))
+        .iter()
+        .map(|o| POp::from_json(o, k).unwrap_or_else(|| vcommon::machinery_failure("bad operation in replay file")))
+        .collect();
+    println!("history: {}", show_history(k, &h));
+    match run_history_k(k, &h, true) {
+        Exec::DeadPrefix(s, why) => {
+            println!("step {} failed: {why}", s + 1);
+            1
+        }
+        Exec::Last { model, res, sigs, snap } => {
+            if let Err((what, text)) = &res {
+                println!("last call: {what}: {text}");
+            }
+            if let Some(s) = &snap {
+                println!("values before the last call: {}", model.iter().enumerate().map(|(j, v)| format!("{}={}", MODES[j].2, v.show())).collect::<Vec<_>>().join(" "));
+                println!("values after the last call : {}", s.fields.iter().enumerate().map(|(j, v)| format!("{}={}", MODES[j].2, v.show())).collect::<Vec<_>>().join(" "));
+                println!("GetAll after the last call : {}", s.all.show());
+            }
+            let (vs, _) = check(k, &h, &model, &res, &sigs, snap.as_ref());
+            for v in &vs {
+                println!("VIOLATION clause={} features={:?}\n    {}", v.clause, v.features, v.detail);
+            }
+            println!("replay: {} violation(s) on the last transition", vs.len());
+            (!vs.is_empty()) as i32
+        }
+    }
 }
